@@ -19,7 +19,7 @@ func init() {
 	Register("C15", &Info{
 		Run:   runC15,
 		Quick: 4500, Thor: 150000,
-		Rule: "a world = one ECH-capable fingerprint (parrots whose spec carries an ECH extension, HelloGolang, generated specs with an ECH extension) with Config.EncryptedClientHelloConfigList built by the harness (drawn config id, KDF/AEAD suite list, maximum_name_length, public name) (alone, followed by further configs, or behind an entry of an unknown version); the parrot shapes are also applied as custom specs with the server name pre-filled into the SNI extension; against the repository's or the std library's ECH-capable server that accepts (holds the key), accepts after a forced HelloRetryRequest, or rejects (holds another key and advertises retry configs); oracle: the secret name never appears in the client's plaintext flight, the outer SNI is the public name, on acceptance both sides report ECHAccepted and the secret name and data echoes, on rejection the client returns ECHRejectionError carrying exactly the server's retry config list after verifying the certificate against the public name; non-trivial = an encrypted_client_hello extension of type outer with the drawn config id on the wire; distinct = (fingerprint, config, server behaviour, peer)",
+		Rule: "a world = one ECH-capable fingerprint (parrots whose spec carries an ECH extension, HelloGolang, generated specs with an ECH extension) with Config.EncryptedClientHelloConfigList built by the harness (drawn config id, KDF/AEAD suite list, maximum_name_length, public name) (alone, followed by further configs, or behind an entry of an unknown version); the parrot shapes are also applied as custom specs with the server name pre-filled into the SNI extension; against the repository's or the std library's ECH-capable server that accepts (holds the key), accepts after a forced HelloRetryRequest, or rejects (holds another key and advertises retry configs), also after a forced HelloRetryRequest; a third of the parrot worlds call BuildHandshakeState (optionally BuildHandshakeStateWithoutSession first) before Handshake, so the hello is marshaled and the inner hello sealed more than once; oracle: the secret name never appears in the client's plaintext flight, the outer SNI is the public name, on acceptance both sides report ECHAccepted and the secret name and data echoes, on rejection the client returns ECHRejectionError carrying exactly the server's retry config list after verifying the certificate against the public name; non-trivial = an encrypted_client_hello extension of type outer with the drawn config id on the wire; distinct = (fingerprint, config, server behaviour, peer)",
 		Assumptions: []string{"ECHConfig encoding (draft-ietf-tls-esni-18 / RFC 9849 version 0xfe0d, DHKEM(X25519, HKDF-SHA256)) is produced by the harness; both servers decode it independently"},
 		Real:        []string{"utls client ECH path from /repo", "utls or std server with ECH keys"},
 		Stub:        []string{"transport, clock, crypto/rand"},
@@ -98,7 +98,13 @@ func runC15(c *Ctx) {
 			}
 		}
 	}
-	behaviour := []string{"accept", "accept", "accept-hrr", "reject"}[ch.Pick(4, "behaviour")]
+	behaviour := []string{"accept", "accept", "accept-hrr", "reject", "reject-hrr"}[ch.Pick(5, "behaviour")]
+	// explicit BuildHandshakeState before Handshake (the hello is marshaled, and the inner hello
+	// sealed, more than once), optionally BuildHandshakeStateWithoutSession first
+	prebuild := 0
+	if ch.Bool(35, "prebuild") {
+		prebuild = 1 + ch.Pick(2, "prebuild-kind")
+	}
 	peer := ch.Pick(2, "peer")
 	cid := uint8(ch.Pick(256, "config-id"))
 	suiteSets := [][][2]uint16{{{1, 1}}, {{1, 1}, {1, 3}}, {{1, 3}}, {{1, 2}, {1, 1}}, {{2, 1}, {1, 1}}}
@@ -115,18 +121,19 @@ func runC15(c *Ctx) {
 	other, _ := buildECH(keyRand, cid+1, public, maxName, suites)
 	w := c.NewWorld(simrt.Config{})
 	certName := "ecdsa"
-	if behaviour == "reject" && ch.Bool(50, "public-only-cert") {
+	rejecting := behaviour == "reject" || behaviour == "reject-hrr"
+	if rejecting && ch.Bool(50, "public-only-cert") {
 		certName = "publiconly"
 	}
 	scfg := &tls.Config{Certificates: []tls.Certificate{Cert(certName).U}, MinVersion: tls.VersionTLS13}
 	stdcfg := &stdtls.Config{Certificates: []stdtls.Certificate{Cert(certName).S}, MinVersion: stdtls.VersionTLS13}
 	serverKey := good
-	if behaviour == "reject" {
+	if rejecting {
 		serverKey = other
 	}
 	scfg.EncryptedClientHelloKeys = []tls.EncryptedClientHelloKey{{Config: serverKey.cfg, PrivateKey: serverKey.priv, SendAsRetry: true}}
 	stdcfg.EncryptedClientHelloKeys = []stdtls.EncryptedClientHelloKey{{Config: serverKey.cfg, PrivateKey: serverKey.priv, SendAsRetry: true}}
-	if behaviour == "accept-hrr" {
+	if behaviour == "accept-hrr" || behaviour == "reject-hrr" {
 		scfg.CurvePreferences = []tls.CurveID{tls.CurveP384}
 		stdcfg.CurvePreferences = []stdtls.CurveID{stdtls.CurveP384}
 	}
@@ -146,9 +153,20 @@ func runC15(c *Ctx) {
 	}
 	list := append([]byte{byte(len(body) >> 8), byte(len(body))}, body...)
 	ccfg := &tls.Config{ServerName: secret, RootCAs: Roots(), EncryptedClientHelloConfigList: list, MinVersion: tls.VersionTLS13, OmitEmptyPsk: true}
-	c.R.Class = fmt.Sprintf("%s %s peer=%s cid=%d suites=%v maxname=%d cert=%s list=%d prefilled=%v", idi.Name, behaviour, peerName(peer), cid, suites, maxName, certName, listKind, prefilled)
+	c.R.Class = fmt.Sprintf("%s %s peer=%s cid=%d suites=%v maxname=%d cert=%s list=%d prefilled=%v prebuild=%d", idi.Name, behaviour, peerName(peer), cid, suites, maxName, certName, listKind, prefilled, prebuild)
 	sp := &ConnSpec{ID: idi.ID, Spec: custom, CCfg: ccfg, Peer: peer, SCfg: scfg, StdCfg: stdcfg, Payload: [][]byte{[]byte("ping-ech")},
 		Setup: func(l *simnet.Link) { l.Frag = ch.Bool(30, "frag") }}
+	if prebuild > 0 && idi.ID != tls.HelloGolang {
+		sp.Prep = func(u *tls.UConn) error {
+			if prebuild == 2 {
+				if err := u.BuildHandshakeStateWithoutSession(); err != nil {
+					return err
+				}
+			}
+			return u.BuildHandshakeState()
+		}
+		c.Probe("explicit-build")
+	}
 	o := RunConn(c, w, sp)
 	c.Finish(w, true)
 	if c.R.Violation != nil {
@@ -222,14 +240,17 @@ func runC15(c *Ctx) {
 		if string(o.CRead) != "ping-ech" {
 			c.Violate("ech-echo-failed "+idKind(idi), "%s: %s", c.R.Class, o.Describe())
 		}
-	case "reject":
+	case "reject", "reject-hrr":
+		if behaviour == "reject-hrr" && hrrSeen {
+			c.Probe("reject-after-hrr")
+		}
 		if o.CDone {
 			c.Violate("ech-rejected-but-handshake-succeeded "+idKind(idi), "%s", c.R.Class)
 			return
 		}
 		var rej *tls.ECHRejectionError
 		if !errors.As(o.CErr, &rej) {
-			c.Violate(fmt.Sprintf("ech-rejection-not-reported %s cert=%s %s", idKind(idi), certName, negErrClass(o)), "%s: client error %v (want ECHRejectionError)", c.R.Class, o.CErr)
+			c.Violate(fmt.Sprintf("ech-rejection-not-reported %s cert=%s hrr=%v %s", idKind(idi), certName, hrrSeen, negErrClass(o)), "%s: client error %v (want ECHRejectionError)", c.R.Class, o.CErr)
 			return
 		}
 		wantRetry := append([]byte{byte(len(other.cfg) >> 8), byte(len(other.cfg))}, other.cfg...)
